@@ -18,7 +18,8 @@ RULE = ("every one of the 127 non-empty subsets of {%Y %m %w %d %H %M %S} in a g
         "earlier value lands at L <= later with later-L < 1 finest unit; (4) at most one '-', "
         "leading the output, iff B<A; (5) %S alone == epoch difference, %d alone on dates == day "
         "difference. Non-trivial: >= 2 units and a carry/borrow between units (a refined unit "
-        "differs from the plain quotient)")
+        "differs from the plain quotient)"
+        " Also: the reference spelled @N (seconds since the epoch) against civil operands; calendar names as duration formats (-f ymd|ymcw|ywd|yd|daisy|bizsi|bizda) print what the spelled-out format they abbreviate prints.")
 ASSUMPTIONS = ["subsets that pair %Y/%m with %H/%M/%S but no %d are undocumented and run for crashes only",
                "calendar subsets are judged on pairs of dates, the domain the statement gives for months/years",
                "%Y with %w but no %m is computed in the ISO-week calendar and judged there with ISO-week inputs"]
